@@ -35,7 +35,8 @@ Rules applied to copied text (all line preserving, all counted in the report):
   R14 `(<lit>..=<lit>).contains(&e)` -> `crate::shim::f_in_incl(<lit>, <lit>, e)`
   R18 `&s[<int>..<int>]` / `&s[<int>..]` for a parameter `s: &str` -> `crate::shim::str_sub(s, lo, Some(hi)|None)`
       (opaque; whether the slice panics is not claimed)
-  R15 `rng.gen_range(<lit>..<lit>)` -> `crate::shim::gen_range_f(rng, <lit>, <lit>)`
+  R15 `rng.gen_range(<lit>..<lit>)` -> `crate::shim::gen_range_f(rng, <lit>, <lit>)`; with variable bounds ->
+      `gen_range_chk_f`, whose precondition is rand's (lo < hi, hi - lo finite)
       (R12 also applies when one side is a float local: a local declared f32/f64 or initialised with a
       float literal or with such a gen_range call)
       the shims are external_body functions whose bodies are the replaced expression and whose contracts
@@ -410,6 +411,8 @@ class Extractor:
                "sha256": hashlib.sha256(text.encode()).hexdigest(),
                "mode": "external_body" if fo.get("external_body") else
                        ("declaration" if p_close is None else "body verified"), "edits": []}
+        if fo.get("tag"):
+            rec["default_tag"] = fo["tag"]   # property tag of the function's untagged obligations (callee preconditions)
         self.report["functions"].append(rec)
         open_ln = src.line_of(p_open)
         # --- signature lines first..open_ln (text before the `{`/`;`)
@@ -726,8 +729,10 @@ class Extractor:
                               "crate::shim::str_sub(%s, %s, %s)" % (v, lo_, ("Some(%s)" % hi_) if hi_ else "None"), "R18"))
         # R15: rand's `rng.gen_range(<lit>..<lit>)` -> crate::shim::gen_range_f(rng, <lit>, <lit>)
         for m in re.finditer(r"\b(\w+)\.gen_range\(\s*(\d+\.\d+|[a-z_]\w*)\s*\.\.(=?)\s*(\d+\.\d+|[a-z_]\w*)\s*\)", code[p_open:p_close]):
+            both_lit = re.fullmatch(r"\d+\.\d+", m.group(2)) and re.fullmatch(r"\d+\.\d+", m.group(4))
             edits.append((p_open + m.start(), p_open + m.end(),
-                          "crate::shim::gen_range%s_f(%s, %s, %s)" % ("_incl" if m.group(3) else "", m.group(1), m.group(2), m.group(4)), "R15"))
+                          "crate::shim::gen_range%s%s_f(%s, %s, %s)" % ("_incl" if m.group(3) else "", "" if both_lit else "_chk",
+                                                                       m.group(1), m.group(2), m.group(4)), "R15"))
         # float locals, recognised lexically: declared with a float type, or initialised with a float
         # literal or with gen_range over float literals
         fl = set(re.findall(r"\blet\s+(?:mut\s+)?(\w+)\s*:\s*f(?:32|64)\b", code[p_open:p_close]))
